@@ -177,6 +177,13 @@ def observe(h, universe, probes, real):
                 o[("get_weights", tag)] = Counter(h.get_weights(up_to=up_to, **kw))
                 o[("get_weights_dict", tag)] = {
                     cedge(a): b for a, b in h.get_weights(up_to=up_to, asdict=True, **kw).items()}
+                o[("edges_meta", tag)] = {
+                    cedge(a): dc(b)
+                    for a, b in h.get_edges(metadata=True, up_to=up_to, **kw).items()}
+        # the documented default: up_to omitted means exactly that size
+        o[("get_edges", "up_to omitted", k)] = Counter(cedge(e) for e in h.get_edges(size=k))
+        o[("num_edges", "up_to omitted", k)] = h.num_edges(order=k - 1)
+        o[("get_weights", "up_to omitted", k)] = Counter(h.get_weights(size=k))
     o["check_edge"] = {}
     o["get_weight"] = {}
     o["edge_meta"] = {}
@@ -269,7 +276,7 @@ class HypergraphAdapter(H.Adapter):
 
     def construct(self, weighted, recs, ws, metas, node_meta, hg_meta):
         from hypergraphx import Hypergraph
-        kw = {"weighted": weighted}
+        kw = {"weighted": True} if weighted else {}   # the documented default is unweighted
         if hg_meta is not None:
             kw["hypergraph_metadata"] = hg_meta
         if node_meta is not None:
